@@ -80,7 +80,7 @@ LEVEL_TEXT = ('Bounded symbolic verification of the real parametric PolarGrid co
               'R0 < Rmax and refinement radius: every accepted path (path forking on the code\'s own comparisons, the refinement window position concretised by solver '
               'enumeration) is proved to produce radii from exactly R0 to exactly Rmax, strictly increasing, with odd nodes at midpoints, the divideBy2-1 grid as every-second-node '
               'subgrid, uniform antipodal angles and a level count that chooseNumberOfLevels reports admissibly; the engine\'s memory model reports any out-of-bounds index. '
-              'The grid-file constructor is executed on arbitrary file contents of bounded length.')
+              'The grid-file constructor is executed on arbitrary file contents of bounded length. chooseNumberOfLevels is also executed on SYMBOLIC node counts (nr <= 300, ntheta <= 128 in quick): for every size it either throws or reports a level count the grid admits.')
 LEVEL_NOTE = 'grid parameters enumerated in small ranges, real parameters symbolic; text round trip of grid files not decided (no IR for stream formatting)'
 TECHNIQUE = 'symbolic execution of LLVM IR (llsym) with path forking and solver-enumerated concretisation + SMT (z3 QF_LRA/QF_NRA)'
 DESIGN_REF = 'DESIGN.md section 6/C18'
